@@ -1163,6 +1163,11 @@ def extra_lane(tier, seed):
                                          env.get('PYTHONPATH', '')])
     env['VM_PLUGIN_OUT'] = out
     env['PYTHONDONTWRITEBYTECODE'] = '1'
+    # the repository's tests leave their temporary files behind: give them a
+    # directory of their own, which goes when the lane is done
+    import shutil
+    scratch = tempfile.mkdtemp(prefix='c05-suite-tmp-', dir=common.BUILD)
+    env['TMPDIR'] = scratch
     try:
         d = None
         tail = ''
@@ -1188,6 +1193,7 @@ def extra_lane(tier, seed):
     finally:
         if os.path.exists(out):
             os.remove(out)
+        shutil.rmtree(scratch, ignore_errors=True)
     viol = []
     excluded = []
     other = []
